@@ -31,6 +31,7 @@ pub fn headers() -> Vec<RHeader> {
         RHeader { alg: Some(l_int(-7)), ..Default::default() },
         RHeader { key_id: b"11".to_vec(), rest: vec![(l_text("x"), u(1))], ..Default::default() },
         RHeader { partial_iv: b"p".to_vec(), ..Default::default() },
+        RHeader { iv: b"i".to_vec(), ..Default::default() },
     ]
 }
 pub fn payloads() -> Vec<Vec<u8>> {
@@ -81,7 +82,7 @@ pub enum MOp {
 }
 
 pub fn ops_of(kind: Kind) -> Vec<MOp> {
-    let mut v = vec![MOp::Protected(0), MOp::Protected(1), MOp::Protected(2), MOp::Protected(3), MOp::Unprotected(0), MOp::Unprotected(2)];
+    let mut v = vec![MOp::Protected(0), MOp::Protected(1), MOp::Protected(2), MOp::Protected(3), MOp::Protected(4), MOp::Unprotected(0), MOp::Unprotected(2), MOp::Unprotected(3), MOp::Unprotected(4)];
     match kind {
         Kind::Signature => v.push(MOp::Blob(0)),
         Kind::Sign1 => {
